@@ -12,3 +12,23 @@ claim("C14",
       "Not decided: mutation through structures of the external go-text JSON package; aliasing through maps and channels is treated as an escape (conservative). Table cells / cached views are covered under C08.",
       "SSA value-origin, escape and use-after-release analysis; who-may-write table; taint of syntax-tree slices with callee summaries",
       "DESIGN.md §3 C14")
+
+claim("C06",
+      "Decides every finite table the property rests on, each enumerated completely by abstract interpretation of the SSA (engine E6): "
+      "(R-CMP-1) the three-way kernels over all orderings × NaN flags; (R-CMP-2) the six comparison operators as functions of the 6-valued comparison class, cell by cell against the documented table, plus the algebraic laws a<b⇔b>a, a<>b⇔NOT(a=b), symmetry of =, a<=b⇔(a<b OR a=b), and Compare's operator→function dispatch; "
+      "(R-CMP-3) the coercion ladder of CompareCombinedly in every abstract world (null-ness × convertibility × orderings), including rung order and 'same conversion on both operands'; "
+      "(R-CMP-4) Calculate's integer→float→NULL rungs, the zero-divisor error, and agreement of the integer and float operator tables (% is the truncated remainder). "
+      "A test samples value pairs; these tables are total.",
+      "Not decided: the numeric content of conversions (strconv parsing/formatting, datetime formats), overflow behaviour, the BETWEEN/IN/ANY/ALL/CASE expansions and Kleene short-circuits (planned R-CMP-5/6). Abstraction: scalars are compared only through ==,<,> (one consistent ordering per pair) and math.IsNaN.",
+      "finite-domain abstract interpretation of go/ssa with exhaustive world enumeration; specification tables and algebraic laws checked cell by cell",
+      "DESIGN.md §3 C06")
+
+claim("C07",
+      "Decides that the sort comparator is a consistent order on its finite abstraction and that sorting moves whole rows: "
+      "(R-SRT-1) SortValue.Less/EquivalentTo over all type × type × field-ordering × NaN × strict-mode worlds — each pair is (T,F), (F,T) or a symmetric tie, EquivalentTo symmetric and implies a tie; "
+      "(R-SRT-2) one key of SortValues.Less over direction × null position × null-ness × element result, against the specified decision table (tie ⇒ next key); "
+      "(R-SRT-3) View.Swap exchanges every per-record parallel slice that sorting fills; (R-LIM-1) stage order OrderBy ≺ Offset ≺ Limit ≺ Fix on every path; (R-LIM-2) the PERCENT base derives from record count + stored offset. "
+      "One genuine defect of R-SRT-1 was repaired (Integer vs Float ties), one is recorded as a known finding (strict-mode strings).",
+      "Not decided: that sort.Sort is given a transitive relation on value level (only pairwise laws on the abstraction), the LIMIT/OFFSET clamping arithmetic and the extent of WITH TIES (boundary panics of LIMIT are under C19: R-ERR-9/10). Two feasibility invariants of NewSortValue are assumed and stated in the evidence (only FloatType holds NaN; a StringType text never equals a numeric value's text).",
+      "finite-domain abstract interpretation (exhaustive), structural field-coverage check, CFG must-precede",
+      "DESIGN.md §3 C07")
